@@ -66,6 +66,7 @@ class ContractAPI(object):
                 return r
             if pc1 >= len(script) or pc2 >= len(template):
                 break
+            pc0 = pc1
             opcode1, data1, pc1, is_ok1 = self._script_tools.scriptStreamer.get_opcode(
                 script, pc1
             )
@@ -73,6 +74,11 @@ class ContractAPI(object):
                 template, pc2
             )
             l1 = 0 if data1 is None else len(data1)
+            if l1 and data2 in (b"PUBKEY", b"PUBKEYHASH", b"SEGWIT", b"SYNTHETIC_KEY"):
+                # standard scripts push their data with the shortest encoding
+                push = self._script_tools.scriptStreamer.compile_push_data(data1)
+                if script[pc0:pc1] != push:
+                    break
             if data2 == b"PUBKEY":
                 if l1 < 33 or l1 > 120:
                     break
@@ -178,12 +184,17 @@ class ContractAPI(object):
         m = opcode + (1 - OP_1)
         sec_keys = []
         while pc < len(script):
+            pc0 = pc
             opcode, data, pc, is_ok = scriptStreamer.get_opcode(script, pc)
             size = len(data) if data else 0
             if size < 33 or size > 120:
                 break
+            if script[pc0:pc] != scriptStreamer.compile_push_data(data):
+                return None
             sec_keys.append(data)
         if pc >= len(script):
+            return None
+        if not OP_1 <= opcode <= OP_16:
             return None
         n = opcode + (1 - OP_1)
         if m > n or len(sec_keys) != n:
